@@ -52,6 +52,17 @@ def cases(draw):
         s["properties"] = props
         if draw(st.booleans()):
             s["additionalProperties"] = {"$ref": draw(st.sampled_from(SAFE_REFS))}
+        if draw(st.booleans()):
+            # data that merely LOOKS like an id (inside default / enum, or a property that is called "id")
+            odd = draw(st.sampled_from([7, None, ["x"], {"a": 1}, True]))
+            where = draw(st.integers(0, 2))
+            other = "$id" if d <= 4 else "id"
+            if where == 0:
+                s["default"] = {"id": odd, "$id": odd}
+            elif where == 1:
+                s["enum"] = [{"id": odd}, {"$id": odd}, "s", None, 1]
+            else:
+                s[other] = odd          # the other family's keyword is unknown here, any value
         xs = [draw(st.dictionaries(V.small_keys, hostile_scalar, min_size=1, max_size=4)) for _ in range(3)]
         return {"draft": d, "schema": s, "instances": xs, "flavour": "safe-refs", "probes": 6}
     if src < 6:
